@@ -150,11 +150,11 @@ let ser_schunk (s : schunk) : string =
   Printf.sprintf "%d:%s hm%d:%s st:%s y:%s" (List.length s.sc_secs) (md5 bs) (List.length hm) (md5 bh)
     (hex_of_bytes s.sc_status) (dec_of_z s.sc_ypos)
 
-(* registry tables *)
-let reg_name : (int, n list * (n * n list)) Hashtbl.t = Hashtbl.create 40000
-let reg_id : (string, z) Hashtbl.t = Hashtbl.create 40000
-let bio_name_t : (int, n list) Hashtbl.t = Hashtbl.create 100
-let bio_id_t : (string, z) Hashtbl.t = Hashtbl.create 100
+(* registry tables (kept as strings: a small live heap keeps the collector out of the way) *)
+let reg_name : (int, string * int * string) Hashtbl.t = Hashtbl.create 40000
+let reg_id : (string, int) Hashtbl.t = Hashtbl.create 40000
+let bio_name_t : (int, string) Hashtbl.t = Hashtbl.create 100
+let bio_id_t : (string, int) Hashtbl.t = Hashtbl.create 100
 let air_t : (int, unit) Hashtbl.t = Hashtbl.create 8
 let small_int (v : z) : int option =
   match v with Z0 -> Some 0 | Zpos p -> (try Some (int_of_pos p) with _ -> None) | Zneg _ -> None
@@ -162,10 +162,18 @@ let in_small (v : z) : bool =      (* below 2^40: int_of_pos is safe *)
   let rec len p k = match p with XH -> k | XO q | XI q -> len q (k + 1) in
   match v with Z0 -> true | Zpos p -> len p 1 <= 40 | Zneg _ -> false
 let key_of (nm, (nt, d)) = hex_of_bytes nm ^ "|" ^ dec_of_n nt ^ "|" ^ hex_of_bytes d
-let st_name (v : z) = if in_small v then (match small_int v with Some i -> Hashtbl.find_opt reg_name i | None -> None) else None
-let st_id k = Hashtbl.find_opt reg_id (key_of k)
-let bio_name (v : z) = if in_small v then (match small_int v with Some i -> Hashtbl.find_opt bio_name_t i | None -> None) else None
-let bio_id nm = Hashtbl.find_opt bio_id_t (hex_of_bytes nm)
+let st_name (v : z) =
+  if in_small v then (match small_int v with
+    | Some i -> (match Hashtbl.find_opt reg_name i with
+                 | Some (nm, nt, d) -> Some (bytes_of_hex nm, (n_of_int nt, bytes_of_hex d))
+                 | None -> None)
+    | None -> None) else None
+let st_id k = match Hashtbl.find_opt reg_id (key_of k) with Some i -> Some (z_of_int i) | None -> None
+let bio_name (v : z) =
+  if in_small v then (match small_int v with
+    | Some i -> (match Hashtbl.find_opt bio_name_t i with Some h -> Some (bytes_of_hex h) | None -> None)
+    | None -> None) else None
+let bio_id nm = match Hashtbl.find_opt bio_id_t (hex_of_bytes nm) with Some i -> Some (z_of_int i) | None -> None
 let is_air (v : z) = if in_small v then (match small_int v with Some i -> Hashtbl.mem air_t i | None -> false) else false
 
 let show_read (r : (wchunk * n) fres) : string =
@@ -175,19 +183,19 @@ let show_read (r : (wchunk * n) fres) : string =
   | FPanic _ -> "panic"
   | FFuel -> "fuel"
 
+let () = Gc.set { (Gc.get ()) with Gc.minor_heap_size = 4 * 1024 * 1024; Gc.space_overhead = 300 }
 let () = iter_lines (fun line ->
   let c = { toks = Array.of_list (split_ws line); pos = 0 } in
   try
     match next c with
     | "reg" ->
-        let id = next_int c in let nm = bytes_of_hex (next c) in
-        let nt = n_of_int (next_int c) in let d = bytes_of_hex (next c) in
-        Hashtbl.replace reg_name id (nm, (nt, d));
-        Hashtbl.replace reg_id (key_of (nm, (nt, d))) (z_of_int id);
+        let id = next_int c in let nm = next c in let nt = next_int c in let d = next c in
+        Hashtbl.replace reg_name id (nm, nt, d);
+        Hashtbl.replace reg_id (nm ^ "|" ^ string_of_int nt ^ "|" ^ d) id;
         print_string "reg ok\n"
     | "bio" ->
-        let id = next_int c in let nm = bytes_of_hex (next c) in
-        Hashtbl.replace bio_name_t id nm; Hashtbl.replace bio_id_t (hex_of_bytes nm) (z_of_int id);
+        let id = next_int c in let nm = next c in
+        Hashtbl.replace bio_name_t id nm; Hashtbl.replace bio_id_t nm id;
         print_string "bio ok\n"
     | "air" -> Hashtbl.replace air_t (next_int c) (); print_string "air ok\n"
     | "wire" ->
